@@ -81,10 +81,15 @@ type Call struct {
 	Tag       string
 	ExpectMethod string // restli method name the filters must see
 	MustReject   bool   // the client has to refuse this call before anything is sent (C07)
+	View         string // the request as the first filter saw it (after de-tunnelling)
+	thresholdSel, threshold, queryLen, damageSel int
 }
 
 //go:norace
 func (c *Call) addInv(i Invocation) { c.Inv = append(c.Inv, i) }
+
+//go:norace
+func (c *Call) setView(v string) { c.View = v }
 
 //go:norace
 func (c *Call) addFilt(f FilterEvent) { c.Filt = append(c.Filt, f) }
@@ -108,6 +113,7 @@ type World struct {
 	base    string
 	nfilt   int
 	filtFail int // index of a filter that fails (-1 none)
+	viewFilter bool
 }
 
 //go:norace
